@@ -337,7 +337,7 @@ class Generator:
         self.cfg = cfg
         self.s = Schema(name)
         if cfg.odd_names:
-            self.s.odd_def_names = (rng.sub("oddnames"), ["Foo_Bar", "FooBar", "fooBar", "foo_bar", "FOO_BAR", "_", "__", "_x", "X_", "_3d_point", "X9", "ALLCAPS", "lower", "camelCase", "snake_case", "HTTP_Frame_", "A", "T", "Type", "Error", "String", "List", "Data", "Message", "Enum", "Struct", "Class", "Self", "Go", "Map", "Bp", "Ctx", "Json"])
+            self.s.odd_def_names = (rng.sub("oddnames"), ["A" * 36 + "b", "AB" * 18 + "c", "A9" * 18 + "z", "Foo_Bar", "FooBar", "fooBar", "foo_bar", "FOO_BAR", "_", "__", "_x", "X_", "_3d_point", "X9", "ALLCAPS", "lower", "camelCase", "snake_case", "HTTP_Frame_", "A", "T", "Type", "Error", "String", "List", "Data", "Message", "Enum", "Struct", "Class", "Self", "Go", "Map", "Bp", "Ctx", "Json"])
         self.top_pool = []  # named types usable from any later top-level definition
 
     # scalars
@@ -458,7 +458,7 @@ class Generator:
         if c.shadow and parent is not None and name is None and r.chance(0.5) and all(n.name != parent.name for n in parent.nested):
             m.name = parent.name  # the same simple name at two nesting levels
         nums = r.sample(range(1, 40 if r.chance(0.8) else 256), nfields)
-        odd = ["foo_bar", "fooBar", "FooBar", "FOO_BAR", "foo__bar", "foo_bar_", "type", "_lead", "trail_", "ALLCAPS", "camelCase", "PascalCase", "x9", "a__b", "value", "data", "s", "m", "id", "len", "_", "__", "_3d", "X", "ctx", "di", "size", "encode", "bp"]
+        odd = ["A" * 36 + "b", "a" * 36 + "B", "A" * 18 + "1" * 18 + "a", "foo_bar", "fooBar", "FooBar", "FOO_BAR", "foo__bar", "foo_bar_", "type", "_lead", "trail_", "ALLCAPS", "camelCase", "PascalCase", "x9", "a__b", "value", "data", "s", "m", "id", "len", "_", "__", "_3d", "X", "ctx", "di", "size", "encode", "bp"]
         for k, num in enumerate(nums):
             fname = "x_" + letters(k)
             if c.odd_names and r.chance(0.3):
